@@ -10,7 +10,7 @@ import rules as R
 from lib import esc_list, unesc_list
 
 THEOREMS = ['C13.C13_preamble_kept', 'C13.C13_second_definition_is_error', 'C13.C13_plain_value', 'C13.C13_undefined_is_error',
-            'C13.C13_self_reference_is_error', 'C13.C13_indirect_cycle_is_error', 'C13.C13_cycle_is_reported', 'C13.C13_no_reference_left',
+            'C13.C13_self_reference_is_error', 'C13.C13_indirect_cycle_is_error', 'C13.C13_cycle_is_reported', 'C13.C13_cycle_test_sound', 'C13.C13_no_reference_left',
             'C13.C13_value_fully_expanded', 'C13.C13_answer_independent_of_fuel']
 REF = re.compile(r'@\{([^{}]+)\}')
 
